@@ -27,7 +27,8 @@ Open Scope N_scope.
 
 Definition cid := N.
 
-Record mapping := { m_id : N; m_listen : cid; m_target : cid; m_socks : bool; m_sent : N; m_recv : N }.
+Record mapping := { m_id : N; m_listen : cid; m_target : cid; m_socks : bool; m_sent : N; m_recv : N;
+                    m_active : bool (* Status = "active" *) }.
 Record code := { c_id : N; c_owner : cid; c_act : cid }.       (* c_act = 0: not activated *)
 Record domain := { d_id : N; d_owner : cid }.
 
@@ -39,7 +40,9 @@ Record world := {
   w_bind : list (N * cid);   (* ClientRegistry.connMap: long-lived connection index -> the ClientID it carries NOW *)
   w_nm : N; w_nc : N; w_nd : N;  (* next fresh object indices *)
   w_xnode : bool;            (* cluster mode: a bridge manager, the connection state store and the cross-node pool are configured *)
-  w_remote : list cid        (* clients whose control connection is on ANOTHER node (connection state store) *)
+  w_remote : list cid;       (* clients whose control connection is on ANOTHER node (connection state store) *)
+  w_index : list (cid * N)   (* the per-client mapping INDEX (tunnox:client_mappings:<client>): (client, mapping id) entries written when a
+                                mapping is created and never rewritten when its record changes: may be stale, dangling or incomplete *)
 }.
 
 (* the connection a packet arrives on *)
@@ -82,7 +85,8 @@ Definition claim := cid.
 
 Inductive route := RUnhandled | RRegistry | RSpecial.
 Inductive idsrc := IdConn | IdPacket | IdNone.
-Inductive party := PNone | PMapParty | PMapListen | PBearer | PDomOwner | PReach | PSelf.
+Inductive party := PNone | PMapParty | PMapListen | PBearer | PDomOwner | PReach | PSelf
+                 | PReachLax.   (* PReach, but the DEFAULT DNS target is taken from the client's index without asking who the mapping's listen client is now *)
 Inductive effect :=
 | EPublicNoBody | EPublic            (* HTTP domain base-domain list / subdomain check+generate: no client-owned state *)
 | EMapList | EMapGet | EMapDelete
@@ -144,17 +148,24 @@ Definition map_party_ok (p : party) (a : cid) (m : mapping) : bool :=
   | _ => false
   end.
 
+(* mapping_repository.go GetClientPortMappings(client): the ids in the client's index, re-read from the primary records
+   (entries whose record is gone are skipped) *)
+Definition indexed (w : world) (a : cid) (m : mapping) : bool :=
+  existsb (fun e => (fst e =? a) && (snd e =? m_id m)) (w_index w).
+Definition client_mappings (w : world) (a : cid) : list mapping := filter (indexed w a) (w_maps w).
+
 Definition with_maps (w : world) (l : list mapping) : world :=
-  {| w_maps := l; w_codes := w_codes w; w_doms := w_doms w; w_online := w_online w; w_bind := w_bind w; w_nm := w_nm w; w_nc := w_nc w; w_nd := w_nd w; w_xnode := w_xnode w; w_remote := w_remote w |}.
+  {| w_maps := l; w_codes := w_codes w; w_doms := w_doms w; w_online := w_online w; w_bind := w_bind w; w_nm := w_nm w; w_nc := w_nc w; w_nd := w_nd w; w_xnode := w_xnode w; w_remote := w_remote w; w_index := w_index w |}.
 Definition with_doms (w : world) (l : list domain) : world :=
-  {| w_maps := w_maps w; w_codes := w_codes w; w_doms := l; w_online := w_online w; w_bind := w_bind w; w_nm := w_nm w; w_nc := w_nc w; w_nd := w_nd w; w_xnode := w_xnode w; w_remote := w_remote w |}.
+  {| w_maps := w_maps w; w_codes := w_codes w; w_doms := l; w_online := w_online w; w_bind := w_bind w; w_nm := w_nm w; w_nc := w_nc w; w_nd := w_nd w; w_xnode := w_xnode w; w_remote := w_remote w; w_index := w_index w |}.
 (* the registry part of the world *)
 Definition with_reg (w : world) (online : list cid) (bind : list (N * cid)) : world :=
-  {| w_maps := w_maps w; w_codes := w_codes w; w_doms := w_doms w; w_online := online; w_bind := bind; w_nm := w_nm w; w_nc := w_nc w; w_nd := w_nd w; w_xnode := w_xnode w; w_remote := w_remote w |}.
+  {| w_maps := w_maps w; w_codes := w_codes w; w_doms := w_doms w; w_online := online; w_bind := bind; w_nm := w_nm w; w_nc := w_nc w; w_nd := w_nd w; w_xnode := w_xnode w; w_remote := w_remote w; w_index := w_index w |}.
 
-(* dns_handler.go getDefaultTargetClientID: first active SOCKS mapping in the client's index (listen or target side) *)
-Definition default_target (a : cid) (l : list mapping) : cid :=
-  match find (fun m => m_socks m && ((m_listen m =? a) || (m_target m =? a)) && negb (m_target m =? 0)) l with
+(* dns_handler.go getDefaultTargetClientID: first active SOCKS mapping among GetClientPortMappings(source) — whatever side
+   of it the source is on, and whatever the index says *)
+Definition default_target (strict : bool) (a : cid) (l : list mapping) : cid :=
+  match find (fun m => m_socks m && m_active m && negb (m_target m =? 0) && (negb strict || (m_listen m =? a))) l with
   | Some m => m_target m | None => 0 end.
 
 (* packets written to the sender's own connection are not deliveries to another client *)
@@ -187,10 +198,11 @@ Definition run (e : effect) (p : party) (a : cid) (w : world) (k : connkind) (c 
                    | 1 => m_listen m =? a
                    | 2 => m_target m =? a
                    | _ => (m_listen m =? a) || (m_target m =? a) end in
-      {| res_ok := true; res_world := w; res_dm := map m_id (filter sel (w_maps w)); res_dc := []; res_dd := []; res_deliv := [] |}
+      (* ListOutboundMappings / ListInboundMappings: the client's index re-read and FILTERED by the record's current parties *)
+      {| res_ok := true; res_world := w; res_dm := map m_id (filter sel (client_mappings w a)); res_dc := []; res_dd := []; res_deliv := [] |}
   | EConfigGet =>
       {| res_ok := true; res_world := w;
-         res_dm := map m_id (filter (fun m => (m_listen m =? a) || (m_target m =? a)) (w_maps w));
+         res_dm := map m_id (filter (fun m => (m_listen m =? a) || (m_target m =? a)) (client_mappings w a));
          res_dc := []; res_dd := []; res_deliv := [] |}
   | EMapGet =>
       match k_obj c with None => mk false w | Some i =>
@@ -207,7 +219,7 @@ Definition run (e : effect) (p : party) (a : cid) (w : world) (k : connkind) (c 
         let n := w_nc w in
         {| res_ok := true;
            res_world := {| w_maps := w_maps w; w_codes := w_codes w ++ [{| c_id := n; c_owner := a; c_act := 0 |}]; w_doms := w_doms w;
-                           w_online := w_online w; w_bind := w_bind w; w_nm := w_nm w; w_nc := n + 1; w_nd := w_nd w; w_xnode := w_xnode w; w_remote := w_remote w |};
+                           w_online := w_online w; w_bind := w_bind w; w_nm := w_nm w; w_nc := n + 1; w_nd := w_nd w; w_xnode := w_xnode w; w_remote := w_remote w; w_index := w_index w |};
            res_dm := []; res_dc := [n]; res_dd := []; res_deliv := [] |}
       else mk false w
   | ECodeList =>
@@ -220,16 +232,18 @@ Definition run (e : effect) (p : party) (a : cid) (w : world) (k : connkind) (c 
       if negb (c_act x =? 0) then mk false w else
         let n := w_nm w in
         {| res_ok := true;
-           res_world := {| w_maps := w_maps w ++ [{| m_id := n; m_listen := a; m_target := c_owner x; m_socks := false; m_sent := 0; m_recv := 0 |}];
+           res_world := {| w_maps := w_maps w ++ [{| m_id := n; m_listen := a; m_target := c_owner x; m_socks := false; m_sent := 0; m_recv := 0; m_active := true |}];
                            w_codes := update_code (fun y => {| c_id := c_id y; c_owner := c_owner y; c_act := a |}) i (w_codes w);
-                           w_doms := w_doms w; w_online := w_online w; w_bind := w_bind w; w_nm := n + 1; w_nc := w_nc w; w_nd := w_nd w; w_xnode := w_xnode w; w_remote := w_remote w |};
+                           w_doms := w_doms w; w_online := w_online w; w_bind := w_bind w; w_nm := n + 1; w_nc := w_nc w; w_nd := w_nd w; w_xnode := w_xnode w; w_remote := w_remote w;
+                           w_index := w_index w ++ [(a, n); (c_owner x, n)] |};
            res_dm := [n]; res_dc := []; res_dd := []; res_deliv := [] |} end end
   | ETraffic =>
       match k_obj c with None => mk true w | Some i =>
       match find_map i (w_maps w) with None => mk true w | Some m =>
       if map_party_ok p a m
       then mk true (with_maps w (update_map (fun y => {| m_id := m_id y; m_listen := m_listen y; m_target := m_target y; m_socks := m_socks y;
-                                                         m_sent := m_sent y + k_sent c; m_recv := m_recv y + k_recv c |}) i (w_maps w)))
+                                                         m_sent := m_sent y + k_sent c; m_recv := m_recv y + k_recv c;
+                                                         m_active := m_active y |}) i (w_maps w)))
       else mk false w end end
   | ESocksOpen =>
       match k_obj c with None => mk false w | Some i =>
@@ -243,8 +257,9 @@ Definition run (e : effect) (p : party) (a : cid) (w : world) (k : connkind) (c 
   | EDnsForward =>
       let okf := has_ctrl w k in
       let t := match k_tgt c with
-               | Some t => match p with PReach => if reaches a t (w_maps w) then t else 0 | _ => t end
-               | None => if a =? 0 then 0 else default_target a (w_maps w) end in
+               | Some t => match p with PReach | PReachLax => if reaches a t (client_mappings w a) then t else 0 | _ => t end
+               | None => if a =? 0 then 0
+                         else default_target (match p with PReach => true | _ => false end) a (client_mappings w a) end in
       if negb (dns_route w t (k_type c) =? 0)
       then {| res_ok := okf; res_world := w; res_dm := []; res_dc := []; res_dd := [];
               res_deliv := deliver self t (dns_route w t (k_type c)) 0 |}
@@ -258,7 +273,7 @@ Definition run (e : effect) (p : party) (a : cid) (w : world) (k : connkind) (c 
         let n := w_nd w in
         {| res_ok := true;
            res_world := {| w_maps := w_maps w; w_codes := w_codes w; w_doms := w_doms w ++ [{| d_id := n; d_owner := a |}];
-                           w_online := w_online w; w_bind := w_bind w; w_nm := w_nm w; w_nc := w_nc w; w_nd := n + 1; w_xnode := w_xnode w; w_remote := w_remote w |};
+                           w_online := w_online w; w_bind := w_bind w; w_nm := w_nm w; w_nc := w_nc w; w_nd := n + 1; w_xnode := w_xnode w; w_remote := w_remote w; w_index := w_index w |};
            res_dm := []; res_dc := []; res_dd := [n]; res_deliv := [] |}
       else mk false w
   | EDomDelete =>
@@ -329,6 +344,12 @@ Definition current_rows : list row := [
   R 120 (Some false) RSpecial IdConn true PReach EDnsForward;       (* DNSResolve request (fix) *)
   R 121 (Some false) RSpecial IdConn true PReach EDnsForward        (* DNSQuery request (fix) *)
 ].
+(* dns_handler.go getDefaultTargetClientID as found after the first round of repairs: explicit targets are checked, the default
+   target is not (fixes/C11-dns-default-target-listen-check.diff) *)
+Definition lax_dns_rows : list row := [
+  R 120 (Some false) RSpecial IdConn true PReachLax EDnsForward;
+  R 121 (Some false) RSpecial IdConn true PReachLax EDnsForward
+].
 Definition pinned_rows : list row := [
   R 90 None RSpecial IdConn false PMapListen ESocksOpen;
   R 110 None RSpecial IdNone false PNone ETraffic;                  (* no identity at all *)
@@ -346,8 +367,9 @@ Definition pinned_table : list row := common_rows ++ pinned_rows.
 (* variant selection used by the correspondence run: one flag per repaired handler (true = repaired) *)
 Definition pick (b : bool) (n : nat) : list row :=
   match nth_error (if b then current_rows else pinned_rows) n with Some r => [r] | None => [] end.
-Definition table_of (f_socks f_traffic f_dns f_notify aux : bool) : list row :=
-  common_rows ++ pick f_socks 0 ++ pick f_traffic 1 ++ pick f_dns 2 ++ pick f_dns 3
+Definition table_of (f_socks f_traffic f_dns f_notify aux f_dnsdef : bool) : list row :=
+  common_rows ++ pick f_socks 0 ++ pick f_traffic 1
+  ++ (if f_dns && negb f_dnsdef then lax_dns_rows else pick f_dns 2 ++ pick f_dns 3)
   ++ (if aux then [if f_notify then aux_row_current else aux_row_pinned] else []).
 
 (* ------------------------------------------------------------------------------------------------------------- *)
@@ -356,7 +378,11 @@ Definition table_of (f_socks f_traffic f_dns f_notify aux : bool) : list row :=
 (* ------------------------------------------------------------------------------------------------------------- *)
 Inductive event :=
 | EvReauth (i : N) (c : cid)     (* connection #i (re-)authenticates as client c: connMap[i].ClientID := c, its old clientIDMap entry dropped *)
-| EvRemove (i : N).              (* connection #i leaves the registry (kick / stale cleanup window); its stream stays open *)
+| EvRemove (i : N)               (* connection #i leaves the registry (kick / stale cleanup window); its stream stays open *)
+(* authorisation-relevant changes of the STORE made behind the commands' back (management API, migration, expiry cleanup) *)
+| EvDelMap (i : N)                        (* the mapping record is deleted *)
+| EvSetParty (i : N) (side : bool) (c : cid)   (* MigrateClientMappings / UpdatePortMapping: listen (false) / target (true) client rewritten; indexes untouched *)
+| EvSetActive (i : N) (b : bool).         (* UpdatePortMappingStatus active / inactive *)
 
 Fixpoint insert_cid (c : cid) (l : list cid) : list cid :=
   match l with [] => [c] | x :: l' => if c =? x then l else if c <? x then c :: l else x :: insert_cid c l' end.
@@ -374,6 +400,13 @@ Definition apply_event (ev : event) (w : world) : world :=
   | EvRemove i =>
       let old := match lookup_bind i (w_bind w) with Some o => o | None => 0 end in
       with_reg w (remove_cid old (w_online w)) (remove_bind i (w_bind w))
+  | EvDelMap i => with_maps w (remove_map i (w_maps w))
+  | EvSetParty i side c =>
+      with_maps w (update_map (fun y => {| m_id := m_id y; m_listen := if side then m_listen y else c; m_target := if side then c else m_target y;
+                                           m_socks := m_socks y; m_sent := m_sent y; m_recv := m_recv y; m_active := m_active y |}) i (w_maps w))
+  | EvSetActive i b =>
+      with_maps w (update_map (fun y => {| m_id := m_id y; m_listen := m_listen y; m_target := m_target y; m_socks := m_socks y;
+                                           m_sent := m_sent y; m_recv := m_recv y; m_active := b |}) i (w_maps w))
   end.
 
 Inductive hstep := HCmd (k : connkind) (cl : claim) (c : cmd) | HEv (ev : event).
@@ -485,3 +518,16 @@ Definition socks_relay_first (w : world) (k : connkind) (c : cmd) : result :=
   then {| res_ok := true; res_world := w; res_dm := []; res_dc := []; res_dd := [];
           res_deliv := deliver (conn_identity w k) (m_target m) C_RelayTunnelOpen 0 |}
   else run ESocksOpen PMapListen (conn_identity w k) w k c end end.
+
+(* ------------------------------------------------------------------------------------------------------------- *)
+(* refuted variants of two seeded breaking changes                                                                *)
+(* ------------------------------------------------------------------------------------------------------------- *)
+(* MappingList default branch answering with the raw per-client index (no filter by the record's current parties) *)
+Definition maplist_raw_index (w : world) (a : cid) : list N := map m_id (client_mappings w a).
+
+(* DNS forwarding that remembers the default target per source client and keeps using it while that client is connected *)
+Definition dns_default_cached (cache : list (cid * cid)) (w : world) (a : cid) : cid * list (cid * cid) :=
+  match find (fun e => (fst e =? a) && memN (snd e) (w_online w)) cache with
+  | Some e => (snd e, cache)
+  | None => let t := default_target true a (client_mappings w a) in (t, if t =? 0 then cache else (a, t) :: cache)
+  end.
